@@ -112,16 +112,17 @@ PROPS = {
     "C04": dict(suites=["sim_plain", "sim_heap", "big_plain", "big_heap", "big_collide", "tomb_plain", "tomb_heap", "core_plain", "rel_plain", "limits_dbg", "limits_rel", "two_heap", "defects"], mc=["Small", "CountR8"], apalache=True),
     "C05": dict(suites=["sim_plain", "sim_heap", "fault_heap", "fault_heap_rel", "tomb_plain", "tomb_heap", "core_heap", "rel_heap", "core_zst", "set_heap", "set_zst", "two_heap", "two_plain_rel", "defects"], mc=["Iter", "Small", "CountR8"], asan=["two_heap", "two_plain_rel", "core_heap", "fault_heap", "set_heap", "tomb_heap", "defects"], miri=True),
     "C06": dict(suites=["entry_heap", "entry_plain", "core_heap", "rel_heap", "two_heap", "set_heap", "set_two", "defects"], mc=["Small"]),
-    # after an injected panic *every* monitor is part of "the map stays memory-safe and self-consistent,
-    # later operations behave normally": any failure in these suites counts for C07
+    # after an injected panic the semantic/safety monitors are part of "the map stays memory-safe and
+    # self-consistent, later operations behave normally": their failures after a fault count for C07
+    # (unless the fault-free control segments fail too: then the panic is not to blame)
     "C07": dict(suites=["fault_heap", "fault_heap_rel", "fault_plain", "fault_two", "fault_set", "fault_zst", "defects"], mc=["Fault"],
-                any_monitor=True),
+                after_fault=True),
     "C08": dict(suites=["core_heap", "rel_heap", "core_plain", "set_heap", "core_zst"], mc=["Small"]),
     "C09": dict(suites=["core_heap", "rel_heap", "core_plain", "set_heap", "set_zst"], mc=["Iter", "Small"]),
     "C10": dict(suites=["sim_plain", "sim_heap", "limits_dbg", "limits_rel", "core_plain", "rel_plain", "set_heap", "defects"], mc=["CountR8", "Overflow", "OverflowDbg"]),
-    # the two-slot suites exist to exercise clone / clone_from followed by divergent histories: there,
-    # any failed monitor (a lookup missing in the clone, an effect seen through the other map, ...) is C11's
-    "C11": dict(suites=["two_heap", "two_plain_rel", "set_two", "defects"], mc=["CountR8", "Small"], any_monitor=True),
+    # a failed semantic monitor on a map that is the product of clone / clone_from in that run (a lookup
+    # missing in the clone, wrong contents after a later call, ...) is C11's
+    "C11": dict(suites=["two_heap", "two_plain_rel", "set_two", "defects"], mc=["CountR8", "Small"], on_clones=True),
     "C12": dict(suites=["entry_heap", "entry_plain", "core_heap", "rel_heap", "core_plain", "core_zst", "defects"], mc=["Small"]),
     "C13": dict(suites=["set_heap", "set_two", "set_zst"], mc=["Small"]),
     "C14": dict(suites=["meta_heap", "meta_plain", "meta_set", "meta_zst"], mc=["Small"],
